@@ -4,6 +4,7 @@ and the active-pool queue mirrors the pools that have not ended.  All statements
 reachable state (`Inv`, `Proofs.Farm.inv_run`).
 -/
 import Irismod.Proofs.FarmWitness
+import Irismod.Proofs.FarmCpSettle
 
 namespace Irismod.Props.C13Farm
 open Irismod Irismod.Sdk Irismod.Farm Irismod.Spec Irismod.Spec.C13Farm Irismod.Proofs.Farm
@@ -67,6 +68,27 @@ theorem handled_exactly_once (s s' : State) (hi : Inv s) (h : endBlocker s = .ok
   have := (i2.core.ghost id pf hg r hr).2.1
   have := hall r hr
   exact ⟨by omega, this.1⟩
+
+/-- **gov's EndBlocker with the farm hooks never aborts**: in every state of the bundles the
+processing of a proposal — deposits refunded, the handler of a passed proposal run on its cache
+context, the hook called — runs to completion, for every proposal id, whatever its status. -/
+theorem gov_step_total (s : State) (pid : Nat) (hi : Inv s) (hc : CpInv s) :
+    (govVote s pid true).2 = false ∧ (govVote s pid false).2 = false ∧ (govFailDeposit s pid).2 = false :=
+  ⟨(govVote_spec pid true hc hi.cpu).1, (govVote_spec pid false hc hi.cpu).1, (govFailDeposit_spec pid hc hi.cpu).1⟩
+
+/-- … so the three operations are accepted block steps of the model and keep both bundles -/
+theorem gov_step_ok (s : State) (pid : Nat) (hi : Inv s) (hc : CpInv s) :
+    (∃ s', step s (.cpPass pid) = .ok s') ∧ (∃ s', step s (.cpReject pid) = .ok s') ∧
+    (∃ s', step s (.cpFailDeposit pid) = .ok s') := by
+  obtain ⟨h1, h2, h3⟩ := gov_step_total s pid hi hc
+  exact ⟨⟨(govVote s pid true).1, by simp [step, h1]⟩, ⟨(govVote s pid false).1, by simp [step, h2]⟩,
+    ⟨(govFailDeposit s pid).1, by simp [step, h3]⟩⟩
+
+/-- a pool created from the community pool is refunded by the EndBlocker like any other: the
+queue hygiene, totality and exactly-once statements above are about every pool of the bundle; its
+refund credits the community pool (`Props.C06.refund_community_pool`) -/
+theorem cp_pool_is_queued (s : State) (hi : Inv s) (id : PoolId) (p : Pool) (hp : getPool s id = some p)
+    (hlt : s.height < p.endH) : (p.endH, id) ∈ s.queue := hi.core.queue.2.1 id p hp hlt
 
 set_option maxRecDepth 100000 in
 /-- regression witness of the fixed finding F-farm-2: after the end-block top-up history the
